@@ -588,7 +588,8 @@ def _required_tests(cx, atoms, R, oid, want='or'):
             raise AnalysisError(f'{cx.qual}: cannot evaluate presence test `{txt}`')
         inst = f'{cx.qual} :: validation-required condition `{txt}`'
         tbl = presence_table(whole, atoms)
-        if tbl != {combo: any(combo) for combo in tbl}:
+        # the test may be written in either polarity (`... is not None` guarding the validation, `... is None` guarding its absence)
+        if tbl != {combo: any(combo) for combo in tbl} and tbl != {combo: not any(combo) for combo in tbl}:
             R.fail(oid, inst, cx.qual, stmt.test, 'validation-required condition is not "any of %s present"' % atoms, site(cx, stmt.test))
         else:
             R.ok(oid, inst, site(cx, stmt.test), f'== any({atoms} present)')
